@@ -150,8 +150,9 @@ def parse_coverage(path):
     return cov
 
 
-def extract_replays(out_path, dest, tag="REPLAY"):
-    """Unwrap `<<"REPLAY", "<escaped json>">>` lines printed by a Gen_* config into a jsonl file."""
+def extract_replays(out_path, dest, tag="REPLAY", limit=None):
+    """Unwrap `<<"REPLAY", "<escaped json>">>` lines printed by a Gen_* config into a jsonl file
+    (at most `limit` of them: -simulate prints many more behaviours than asked for)."""
     n = 0
     prefix = '<<"%s", ' % tag
     with open(out_path, "r", errors="replace") as f, open(dest, "w") as g:
@@ -161,6 +162,8 @@ def extract_replays(out_path, dest, tag="REPLAY"):
                 s = json.loads(body)
                 g.write(s + "\n")
                 n += 1
+                if limit is not None and n >= limit:
+                    break
     return n
 
 
@@ -376,7 +379,10 @@ def gen_step(c, module, cfg, name, simulate=None, workers=8, timeout=3000, seed_
     out = os.path.join(wd, name + ".gen.out")
     g = run_tlc(module, cfg, name=name, workers=workers, timeout=timeout, out_path=out, simulate=simulate, seed_=seed_)
     jsonl = os.path.join(wd, name + ".jsonl")
-    nb = extract_replays(out, jsonl, tag=tag)
+    limit = None
+    if simulate and simulate.startswith("num="):
+        limit = 4 * int(simulate.split("=")[1].split(",")[0])
+    nb = extract_replays(out, jsonl, tag=tag, limit=limit)
     os.remove(out)
     if nb == 0:
         raise ToolError("generator %s produced no behaviours" % cfg)
